@@ -137,11 +137,57 @@ def run(args):
                     if f in m["specfields"] and (ec != "NO_ERROR" or v != m["specfields"][f]):
                         V.violation("dov:node-off-recurrence", case, observed={f: [v, ec]}, expected={f: m["specfields"][f]},
                                     what="component value differs from the documented recurrence")
+    # (c) the visual tree: with Degree of Variability on - alone and together with every other display option - every node
+    # carries the value, and the values are those of the model (node_cx, proved equal to the recurrence: C20_node, C20_total)
+    vis = {"roots": 0, "conversions": 0, "nodes": 0, "annotated_nodes": 0}
+    if model is not None and not args.replay or (args.replay and (rep.get("input") or {}).get("root")):
+        import vis_common as VC
+        if args.replay and (rep.get("input") or {}).get("root"):
+            vroots, vflags = [rep["input"]["root"]], [[rep["input"]["flags"]]]
+        else:
+            rs = [VC.wnode(r) for r in VC.gen_roots(args.tier, args.seed, 20, n_quick=260, n_thorough=4000)]
+            vroots = [t for t in rs if "(NS " not in t]     # component pairs: known finding of C17 (dov_with_component_pairs)
+            rng = random.Random(args.seed * 31 + 5)
+            dov_flags = [f for f in VC.FLAGS if f[3] == '1']
+            vflags = [(dov_flags if args.tier == "thorough" else rng.sample(dov_flags, 4)) for _ in vroots]
+        vreq, vlines, vmeta = [], [], []
+        for t, fs in zip(vroots, vflags):
+            for f in fs:
+                vreq.append(dict(VC.vis_opts(f), mode="bvisn", tree=t))
+                vlines.append("jsonn\t%s\t%s" % (f, t))
+                vmeta.append((t, f))
+        vimpl = run_pool([build.obs], vreq, NCPU, timeout=30)
+        vmodel = run_lines([build.modelrun], vlines)
+        vis["roots"], vis["conversions"] = len(vroots), len(vreq)
+        vm = 0
+        for (t, f), r, m in zip(vmeta, vimpl, vmodel):
+            case = {"root": t, "flags": f}
+            if "panic" in r or "exit" in r or "timeout" in r or r.get("err") != "NO_ERROR" or not m.startswith("ok:"):
+                continue       # crashes and invalid output: C08 / C10
+            j = VC.parse_out(r)
+            if j is None:
+                continue
+            exp = VC.unhex(json.loads(m[3:]))
+            got_seq = [(n.get("name"), n.get("dov")) for n in VC.walk(j)]
+            exp_seq = [(n.get("name"), n.get("dov")) for e in exp for n in VC.walk(e)]
+            vis["nodes"] += len(got_seq)
+            vis["annotated_nodes"] += sum(1 for n in VC.walk(j) if "anno" in n)
+            missing = [n.get("name") for n in VC.walk(j) if "dov" not in n and not (VC.is_stmt(n) and n is j)]
+            if missing:
+                V.violation("visual:node-without-dov", case, observed={"nodes": missing[:6]}, what="Degree of Variability is on, but a node of the visual tree carries no value")
+            elif [a for a, _ in got_seq] != [a for a, _ in exp_seq]:
+                vm += 1
+                if vm <= 3:
+                    V.broke("correspondence:visual-tree", json.dumps({"root": t, "flags": f})[:1500])
+            elif got_seq != exp_seq:
+                k = next(i for i, (a, b) in enumerate(zip(got_seq, exp_seq)) if a != b)
+                V.violation("visual:dov-off-recurrence", case, observed={"node": got_seq[k][0], "dov": got_seq[k][1]}, expected={"dov": exp_seq[k][1]},
+                            what="a node of the visual tree carries a Degree of Variability other than the recurrence gives")
     if mism:
         V.broken[-1]["detail"] += " (%d disagreeing cases)" % mism
     if model is None:
         V.broke("model:extraction", build.coq_log[-1500:])
     cov = std_coverage(po, len(cases), nontrivial,
-                       "E: every operator tree <= %d leaves over {AND,OR,XOR,bAND,wAND} on component fields in turn; S: random statements, up to 9 fields, nesting depth <= 5; M: trees outside the recurrence's domain (correspondence only). Non-trivial = distinct serialised statement with at least one combination." % (4 if args.tier == "quick" else 6),
-                       [texts[0], texts[len(texts) // 2], texts[-70]], {"distribution": dist, "tree_level": len(cases), "correspondence_mismatches": mism, "exhaustive": False})
+                       "E: every operator tree <= %d leaves over {AND,OR,XOR,bAND,wAND} on component fields in turn; S: random statements, up to 9 fields, nesting depth <= 5; M: trees outside the recurrence's domain (correspondence only); V: statements (annotations, private properties, hostile texts, nesting depth <= 5) through the visual printer with DoV on under 4 (thorough: all 16) vectors of the other options: every node carries a value, the values are the model's. Non-trivial = distinct serialised statement with at least one combination." % (4 if args.tier == "quick" else 6),
+                       [texts[0], texts[len(texts) // 2], texts[-70]], {"distribution": dist, "tree_level": len(cases), "visual_tree": vis, "correspondence_mismatches": mism, "exhaustive": False})
     return V.finish(cov, po["assumptions"])
